@@ -19,7 +19,9 @@
   3. `model_refines_oracle`, `wf_invariant`, `history_refines`, `read_after_history`,
      `read_depends_on_state_only` : the generic step and the induction over histories — the main theorem.
   4. `table_*`   : laws of the generated conversion tables.
-  5. counter-examples for the two decoders that were defective as shipped.
+  5. counter-examples for the operations that were defective as shipped (LED decoder, port state without link,
+     LAN revision-only mode, rollback status, sensor states while unavailable): the as-shipped model variant
+     does NOT refine the BMC, the intended one does.
 -/
 import PyIpmi.Lemmas.ApiAll
 import PyIpmi.Lemmas.ApiDomain
@@ -189,10 +191,12 @@ theorem read_get_boot_device (s : BmcState) (hw : s.Wf) :
     api_get_boot_device.run s = present (s, .bootDev (BootDev.ofCode (get_boot_flags s).device)) :=
   get_boot_device_refines s (bootFlags_wf s hw)
 
+/-- normal mode: the data of parameter `sel` of channel `ch`; revision-only mode: the parameter revision of
+that same channel and parameter (not of channel 0, and not the empty data) -/
 theorem read_get_lan_config_param (ch sel setSel blk : Nat) (revOnly : Bool) (s : BmcState)
     (h : ch < 16 ∧ sel < 256 ∧ setSel < 256 ∧ blk < 256) :
     (api_get_lan_config_param ch sel setSel blk revOnly).run s =
-      (s, .ok (.bytes (if revOnly then [] else get_lan_param ch sel s))) :=
+      (s, .ok (if revOnly then .nat (get_lan_revision ch sel s) else .bytes (get_lan_param ch sel s))) :=
   get_lan_config_param_refines ch sel setSel blk revOnly s h
 theorem read_get_ip_address (ch : Nat) (s : BmcState) (h : ch < 16) :
     (api_get_ip_address ch).run s = (s, .ok (.ip (get_lan_param ch 3 s))) :=
@@ -220,7 +224,8 @@ theorem read_get_user_access (uid ch : Nat) (s : BmcState) (h1 : 1 ≤ uid) (h2 
   have : uid % 64 ≠ 0 := by omega
   simp [withUser, present, Result.toOutcome, this]
 
-/-- sensor `num` on LUN `lun` — the request carries both -/
+/-- sensor `num` on LUN `lun` — the request carries both; while the BMC flags reading/state unavailable the
+result is `(None, None)` (`get_sensor_reading` of the oracle): no stale state bits -/
 theorem read_get_sensor_reading (num lun : Nat) (s : BmcState) (h : num < 256) (hw : s.Wf) :
     (api_get_sensor_reading num lun).run s = (s, .ok (let r := get_sensor_reading lun num s; .optNatPair r.1 r.2)) :=
   get_sensor_reading_refines num lun s h (sensor_wf lun num s hw)
@@ -274,10 +279,10 @@ theorem read_get_target_upgrade_capabilities (s : BmcState) (hw : s.Wf) :
 theorem read_query_selftest_results (s : BmcState) (hw : s.Wf) :
     api_query_selftest_results.run s = (s, .ok (.natPair s.hpm.selftest1 s.hpm.selftest2)) :=
   query_selftest_results_refines s hw.hpmSelftest2
+/-- the mask of the rolled-back components and the completion estimate, exactly as the BMC holds them -/
 theorem read_query_rollback_status (s : BmcState) :
-    api_query_rollback_status.run s = (s, (run .queryRollbackStatus s).2.toOutcome) := by
-  rw [query_rollback_status_refines s]
-  rcases he : s.hpm.rollbackEstimate with _ | _ | n <;> simp [run, Result.toOutcome, he]
+    api_query_rollback_status.run s = (s, .ok (.rollback s.hpm.rollbackStatus s.hpm.rollbackEstimate)) :=
+  query_rollback_status_refines s
 
 /-! ## 3. the generic step and history independence (main theorem) -/
 
@@ -425,8 +430,8 @@ theorem table_wrapper_constants :
     fruActivationControl = [0, 1] ∧ policyCtrl = [0, 1, 2, 3] :=
   ⟨chassisControlOption_law, fruControlOption_law, fruActivationControl_law, policyCtrl_law⟩
 
-/-! ## 5. the two decoders that were defective as shipped (kept as model variants; the harness probes the
-real code and uses the matching variant, so that the check fires again if a defect returns) -/
+/-! ## 5. the operations that were defective as shipped (kept as model variants, `Model.Api.Variant`; the
+harness probes the real code and uses the matching variant, so that the check fires again if a defect returns) -/
 
 /-- a BMC whose LED 2 of FRU 1 is overridden to blink 50 ms off / 70 ms on, colour 3 -/
 def ledState : BmcState := (run (.setLedState 1 2 (.override (.blink 5 7) 3)) {}).1
@@ -455,6 +460,67 @@ theorem shipped_port_state_wrong :
   constructor <;>
     simp [api_get_port_state_shipped, api_get_port_state, getPortState, api_eval, noLinkState, get_port, fmtPort,
       bitsOf, portKey, Map.getD, Map.find?, Map.set]
+
+/-- `get_lan_config_param(channel, …, revision_only=1)` AS SHIPPED: for EVERY channel, selector and BMC state the
+request on the wire is `80h 00h 00h 00h` — channel 0, parameter 0 — and the call returns the empty data, which
+is never the parameter revision of the addressed channel; the intended operation returns exactly that. -/
+theorem shipped_lan_revision_only_wrong (ch sel setSel blk : Nat) (s : BmcState)
+    (h : ch < 16 ∧ sel < 256 ∧ setSel < 256 ∧ blk < 256) :
+    (api_get_lan_config_param_shipped ch sel setSel blk true).request =
+        .ok { netfn := 0x0c, lun := 0, cmd := 0x02, data := [0x80, 0, 0, 0] } ∧
+    ((api_get_lan_config_param_shipped ch sel setSel blk true).run s).2 ≠ (run (.getLanParam ch sel setSel blk true) s).2.toOutcome ∧
+    ((api_get_lan_config_param ch sel setSel blk true).run s).2 = (run (.getLanParam ch sel setSel blk true) s).2.toOutcome := by
+  obtain ⟨h1, h2⟩ := get_lan_config_param_shipped_revision_only ch sel setSel blk s
+  refine ⟨h1, ?_, ?_⟩
+  · rw [h2]; simp [run, Result.toOutcome]
+  · rw [read_get_lan_config_param ch sel setSel blk true s h]; simp [run, Result.toOutcome]
+
+/-- the addressed object matters: two channels of one BMC with different parameter revisions — the intended
+operation tells them apart, the as-shipped one gives the same (empty) answer for both -/
+def twoRevState : BmcState := { lanRev := (({} : Map Nat).set (lanKey 1 3) 0x11).set (lanKey 2 3) 0x21 }
+
+theorem shipped_lan_revision_only_ignores_channel :
+    twoRevState.Wf ∧
+    ((api_get_lan_config_param 1 3 0 0 true).run twoRevState).2 = .ok (.nat 0x11) ∧
+    ((api_get_lan_config_param 2 3 0 0 true).run twoRevState).2 = .ok (.nat 0x21) ∧
+    ((api_get_lan_config_param_shipped 1 3 0 0 true).run twoRevState).2 =
+      ((api_get_lan_config_param_shipped 2 3 0 0 true).run twoRevState).2 := by
+  have hw : twoRevState.Wf :=
+    { wf_init with lanRev := ((Map.All.empty _).set _ _ (by decide)).set _ _ (by decide) }
+  refine ⟨hw, ?_, ?_, ?_⟩
+  · rw [read_get_lan_config_param 1 3 0 0 true _ (by decide)]; decide
+  · rw [read_get_lan_config_param 2 3 0 0 true _ (by decide)]; decide
+  · rw [(get_lan_config_param_shipped_revision_only 1 3 0 0 _).2, (get_lan_config_param_shipped_revision_only 2 3 0 0 _).2]
+
+/-- `query_rollback_status()` AS SHIPPED: for EVERY BMC state the result is not the rollback status the BMC
+holds, and it does not depend on the component mask at all (two BMCs that differ only in the mask of the
+rolled-back components give the same result); the intended operation returns the mask and the estimate. -/
+theorem shipped_rollback_status_wrong (s : BmcState) (mask : Nat) :
+    (api_query_rollback_status_shipped.run s).2 ≠ (run .queryRollbackStatus s).2.toOutcome ∧
+    (api_query_rollback_status_shipped.run { s with hpm := { s.hpm with rollbackStatus := mask } }).2 =
+      (api_query_rollback_status_shipped.run s).2 ∧
+    (api_query_rollback_status.run s).2 = (run .queryRollbackStatus s).2.toOutcome := by
+  refine ⟨?_, ?_, ?_⟩
+  · rw [query_rollback_status_shipped_run]; simp [run, Result.toOutcome]
+  · rw [query_rollback_status_shipped_run, query_rollback_status_shipped_run]
+  · rw [read_query_rollback_status]; simp [run, Result.toOutcome]
+
+/-- sensor 7 (LUN 0) right after `rearm_sensor_events(7)`: the BMC flags reading/state unavailable while its
+response still carries the state bytes from before the re-arm -/
+def rearmedState : BmcState := (run (.rearmSensorEvents 7) {}).1
+
+/-- `get_sensor_reading` AS SHIPPED hands those stale state bits to the caller (`(None, 0xc7)`); the oracle —
+and the intended operation — say `(None, None)`. -/
+theorem shipped_sensor_reading_wrong :
+    rearmedState.Wf ∧
+    (run (.getSensorReading 7 0) rearmedState).2 = .optNatPair none none ∧
+    ((api_get_sensor_reading_shipped 7 0).run rearmedState).2 = .ok (.optNatPair none (some 0xc7)) ∧
+    ((api_get_sensor_reading 7 0).run rearmedState).2 = .ok (.optNatPair none none) := by
+  have hw : rearmedState.Wf := wf_run _ _ (by simp [Call.InRange]) wf_init
+  refine ⟨hw, by decide, ?_, ?_⟩
+  · simp [api_get_sensor_reading_shipped, getSensorReading, statesOf, api_eval, rearmedState, run, rearm_sensor, get_sensor,
+      fmtSensorReading, dfltSensor, sensorKey, Map.getD, Map.find?, Map.set, b2n]
+  · rw [read_get_sensor_reading 7 0 _ (by decide) hw]; decide
 
 /-! ## non-vacuity: the hypotheses are satisfiable by non-trivial objects, the conclusions say something -/
 
